@@ -386,6 +386,29 @@ def r10_12(run, model):
         run.ob("R10.12", "ensure_float_literal_fits|finiteness is tested", False, site(CHECK, f.node["sp"]), "no is_finite / is_infinite test in the function",
                witness="a float64 literal with 309 integer digits is accepted and emitted as `inf`")
         return
+    # the test that protects float64 looks at the parsed value itself, whatever the literal's type: its receiver is the f64 parameter (not a
+    # narrowed copy) and neither its condition nor anything around it asks for the type
+    fparams = {p["pat"].get("name") for p in f.params() if not p["self"] and re.search(r"\bf64\b", p["ty"] or "")}
+    tparams = {p["pat"].get("name") for p in f.params() if not p["self"] and re.search(r"\bTy\b", p["ty"] or "")}
+    par = S.Parents(f.body)
+    plain = []
+    for c in fin:
+        r = c["recv"]
+        if not (r["k"] == "Path" and len(r["segs"]) == 1 and r["segs"][0] in fparams):
+            continue
+        conds = []
+        for a in par.ancestors(c):
+            if a["k"] == "If":
+                conds.append(a["cond"])
+            elif a["k"] == "Match":
+                conds.append(a["scrut"])
+        # ancestors() passes through the If whose *condition* holds the test and through any If / Match the test is nested in
+        if any(S.idents(x) & tparams for x in conds):
+            continue
+        plain.append(c)
+    run.ob("R10.12", "ensure_float_literal_fits|the parsed value is tested whatever the type", bool(plain), site(CHECK, fin[0]["sp"]),
+           f"finiteness tests: {len(fin)}; on the f64 parameter {sorted(fparams)} with no type condition around them: {len(plain)}",
+           witness="`!(value as f32).is_finite()` under `matches!(ty, TFloat32)`: float64 has no range check left, 2e308 is emitted as `inf`")
     pos = min((c["sp"][0], c["sp"][1]) for c in fin)
     early = [r for r in S.walk(f.body) if r["k"] == "Return" and (r["sp"][0], r["sp"][1]) < pos]
     run.ob("R10.12", "ensure_float_literal_fits|no return precedes the finiteness test", not early, site(CHECK, (early or fin)[0]["sp"]),
